@@ -177,6 +177,91 @@ def deliveries(doc: dict, tmp: str):
     yield attempt("s3/yaml", lambda: S3PolicySource("s3://b/dir/p.yml", client=FakeS3(ytxt.encode()), validate_schema=False).load())
 
 
+class _Resp304:
+    status_code = 304
+    text = ""
+
+    def __init__(self, tag):
+        self.headers = {"ETag": tag}
+
+    def raise_for_status(self):
+        return None
+
+
+def validating_sources(run: lib.Run, docs: list, tmp: str) -> None:
+    """sources built with validate_schema=True, over short load SEQUENCES (HTTP: 200 with an ETag, then the conditional request answered
+    304, then 200 again): 'accepting' a document = handing it out.  A document the bundled schema rejects is never handed out, on any
+    load of the sequence; one that conforms is handed out on every load."""
+    for k, doc in enumerate(docs):
+        if not isinstance(doc, dict) or not doc:
+            continue
+        ok = c06.schema_ok(doc)
+        want = canon_unordered(json.loads(json.dumps(doc)))
+        jtxt, ytxt = json.dumps(doc), yaml.safe_dump(doc)
+        seqs = []
+        fake = types.ModuleType("requests")
+        saved = sys.modules.get("requests")
+        try:
+            for name, body, ctype, wj in (("http/json+method", jtxt, "application/json", True), ("http/json/text", jtxt, "application/json", False),
+                                          ("http/yaml/ctype", ytxt, "application/x-yaml", False)):
+                tag = f'"v{k}"'
+
+                def get(url, headers=None, timeout=None, body=body, ctype=ctype, wj=wj, tag=tag):
+                    if (headers or {}).get("If-None-Match") == tag:
+                        return _Resp304(tag)
+                    r = FakeResp(body, ctype, wj)
+                    r.headers["ETag"] = tag
+                    return r
+                fake.get = get
+                sys.modules["requests"] = fake
+                src = HTTPPolicySource("http://h/p", validate_schema=True)
+                outs = []
+                for _ in range(3):
+                    try:
+                        outs.append(src.load())
+                    except Exception as e:  # noqa: BLE001
+                        outs.append(e)
+                seqs.append((name + " ×3 (200, 304, …)", outs))
+        finally:
+            if saved is not None:
+                sys.modules["requests"] = saved
+            else:
+                sys.modules.pop("requests", None)
+        p = os.path.join(tmp, "validating.json")
+        with open(p, "w", encoding="utf-8") as f:
+            f.write(jtxt)
+        for name, mk in (("file", lambda: FilePolicySource(p, validate_schema=True)),
+                         ("s3", lambda: S3PolicySource("s3://b/p.json", client=FakeS3(jtxt.encode()), validate_schema=True))):
+            src = mk()
+            outs = []
+            for _ in range(2):
+                try:
+                    outs.append(src.load())
+                except Exception as e:  # noqa: BLE001
+                    outs.append(e)
+            seqs.append((name + " ×2", outs))
+        for name, outs in seqs:
+            run.evaluations += 1
+            run.count("validating-source:" + ("conforming" if ok else "rejected"))
+            bad = None
+            for i, o in enumerate(outs):
+                handed_out = not isinstance(o, Exception)
+                try:
+                    same = handed_out and canon_unordered(o) == want
+                except TypeError:
+                    same = False
+                if not ok and same:
+                    bad = f"load #{i + 1} handed out a document the bundled schema rejects"
+                elif ok and not same:
+                    bad = f"load #{i + 1} did not hand out a conforming document ({type(o).__name__ if isinstance(o, Exception) else 'another object'})"
+                if bad:
+                    break
+            if bad:
+                run.spec_failures.append({"part": "validating source", "path": name, "document": doc, "bundled_schema_accepts": ok,
+                                          "loads": [type(o).__name__ if isinstance(o, Exception) else o for o in outs], "spec": bad})
+                return
+
+
 def cli_status(argv: list[str], stdin_text: str | None = None) -> int | str:
     out, err = io.StringIO(), io.StringIO()
     saved_stdin = sys.stdin
@@ -211,11 +296,13 @@ def check_paths_and_tools(run: lib.Run, audit: dict, scale: int = 1):
         docs += [a, b] if r.random() < 0.5 else [b, a, b]
     cli_cases = []
     with tempfile.TemporaryDirectory() as tmp:
+        validating_sources(run, docs[:: (2 if quick else 4)], tmp)
         for doc in docs:
             if not isinstance(doc, dict):
                 continue
             want = canon_unordered(json.loads(json.dumps(doc)))
             bad = []
+            delivered = []
             for name, got in deliveries(doc, tmp):
                 run.count("delivery")
                 try:
@@ -224,6 +311,25 @@ def check_paths_and_tools(run: lib.Run, audit: dict, scale: int = 1):
                     same = False
                 if not same:
                     bad.append((name, repr(got)[:200]))
+                delivered.append(got)
+            if not bad and len(cli_cases) % 3 == 0:
+                # the holders of the delivered objects edit them in place (an engine's owner adds a rule, a tool strips fields): every path
+                # then delivers the document again — what arrives is the document, not what somebody made of an earlier delivery
+                for got in delivered:
+                    if isinstance(got, dict):
+                        for key in list(got):
+                            v = got[key]
+                            if isinstance(v, list):
+                                v.append({"id": "edited-by-a-holder", "effect": "permit", "actions": ["*"], "resource": {"type": "*"}})
+                            got[key] = v if isinstance(v, list) else "edited-by-a-holder"
+                for name, got in deliveries(doc, tmp):
+                    run.count("delivery-after-holders-edited")
+                    try:
+                        same = not isinstance(got, Exception) and canon_unordered(got) == want
+                    except TypeError:
+                        same = False
+                    if not same:
+                        bad.append((name + " (again, after the objects delivered before were edited in place)", repr(got)[:200]))
             run.case(["doc", doc], not bad and bool(doc.get("rules") or doc.get("policies")))
             if bad:
                 run.spec_failures.append({"part": "delivery paths", "document": doc, "deviating_paths": bad,
